@@ -206,6 +206,18 @@ class InvariantMonitor(Monitor):
                     'task': itask.identity, 'message': message,
                     'msg_submit': sn, 'task_submit': sn0,
                     'status': [status0, itask.state.status]})
+        # a received message for an earlier stage than the task has reached
+        # must not move the status back (whatever process_message returned)
+        rank = {'submitted': 1, 'started': 2, 'succeeded': 3, 'failed': 3}
+        srank = {'submitted': 1, 'running': 2, 'succeeded': 3, 'failed': 3}
+        m0 = str(message).split('/')[0]
+        if (flag == tem.FLAG_RECEIVED and (sn is None or sn == sn0)
+                and m0 in rank and status0 in srank
+                and rank[m0] < srank[status0]
+                and itask.state.status != status0):
+            self.v('C10', 'received_message_moved_status_backwards', {
+                'task': itask.identity, 'message': message,
+                'status': [status0, itask.state.status]})
         if ret is True:
             self.res.sim.probe('backward_message_poll_requested')
             if itask.state.status != status0:
